@@ -121,7 +121,14 @@ fn optimal_deviations<const PLAYER_ONE: bool>(
         }
 
         // set the max utility of playing to reach an infoset
-        infosets[info].max_utility = payoffs.into_iter().reduce(f64::max).unwrap() / total_reach;
+        // NOTE the reach of every node can underflow to zero (tiny chance or opponent
+        // probabilities), in which case the infoset can't contribute anything, but 0 / 0 would
+        // poison the deviation payoff of every earlier infoset with nan
+        infosets[info].max_utility = if total_reach > 0.0 {
+            payoffs.into_iter().reduce(f64::max).unwrap() / total_reach
+        } else {
+            0.0
+        };
     }
     next_infoset_search::<PLAYER_ONE>(start, &mut search_queue, &infosets, chance_info, strat_info)
 }
